@@ -134,7 +134,7 @@ class ShiftedServer(QueuedResource):
 
     def handle_event(self, event: Event):
         if event.event_type == _SHIFT_CHANGE:
-            return self._handle_shift_change()
+            return self._handle_shift_change(event)
 
         # On first real event, schedule the first shift change
         if not self._initialized:
@@ -147,8 +147,12 @@ class ShiftedServer(QueuedResource):
 
         return super().handle_event(event)
 
-    def _handle_shift_change(self) -> list[Event]:
-        time_s = self.now.to_seconds()
+    def _handle_shift_change(self, event: Event) -> list[Event]:
+        # The event is stamped at the boundary truncated to whole nanoseconds,
+        # so ``now`` can be a hair *before* the float boundary it was scheduled
+        # for. Evaluate the schedule at the boundary itself so the new shift's
+        # capacity applies and the next transition is strictly later.
+        time_s = max(self.now.to_seconds(), event.context.get("boundary_s", 0.0))
         new_capacity = self.schedule.capacity_at(time_s)
         old_capacity = self._current_capacity
         self._current_capacity = new_capacity
@@ -162,14 +166,14 @@ class ShiftedServer(QueuedResource):
         )
 
         # Schedule the next shift change (self-perpetuating)
-        next_event = self._schedule_next_shift()
+        next_event = self._schedule_next_shift(after_s=time_s)
         return [next_event] if next_event else []
 
-    def _schedule_next_shift(self) -> Event | None:
-        """Schedule only the next transition event."""
+    def _schedule_next_shift(self, after_s: float | None = None) -> Event | None:
+        """Schedule only the next transition event (strictly after ``after_s``)."""
         from happysimulator.core.temporal import Instant
 
-        current_s = self.now.to_seconds()
+        current_s = self.now.to_seconds() if after_s is None else after_s
         next_t = self.schedule.next_transition_after(current_s)
         if next_t is None:
             return None
@@ -179,6 +183,7 @@ class ShiftedServer(QueuedResource):
             event_type=_SHIFT_CHANGE,
             target=self,
             daemon=True,
+            context={"boundary_s": next_t},
         )
 
     def handle_queued_event(
